@@ -32,10 +32,14 @@ class JoinSpec(nfa.Spec):
             if ph == "locked":
                 return ("taken",)
             return st
-        if ev == "sw:Option::Some" and ph == "taken":
+        if ev in ("sw:Option::Some", "sw:Res::Ok") and ph == "taken":
             return ("have",)
-        if ev == "sw:Option::None" and ph == "taken":
+        if ev in ("sw:Option::None", "sw:Res::Err") and ph == "taken":
             return ("none",)
+        if ev == "retval:residual":  # `slot.take().await?` in a function returning Option: None is handed back
+            if ph != "none":
+                return nfa.Err("R17.2: None is returned in phase %s" % ph)
+            return ("ret",)
         if ev in ("done:handle", "done:take"):
             if ph != "have":
                 return nfa.Err("R17.2: a task handle is awaited in phase %s (must be the one just taken out of the slot)" % ph)
@@ -153,9 +157,9 @@ def check_join(ctx, fx, cfg, RULE):
         A = nfa.Alphabet(
             calls=[("lock", lambda t: (t.get("callee") or "").startswith("async_lock::mutex::") and (t.get("callee") or "").endswith(("::lock", "::lock_arc"))),
                    ("take", nfa.callee_ends("option::{impl#0}::take"))],
-            adts={"core::option::Option": "Option"}, retval=True,
+            adts={"core::option::Option": "Option", "core::ops::control_flow::ControlFlow": "Res"}, retval=True,
             fut_types=[(p[:-1], "handle") for p in runtimes.HANDLES])
-        n = nfa.build(cb, A)
+        n = nfa.build(cb, A, fx, depth=2)  # the slot may be a small type of its own with an async `take`
         viols, ps = nfa.check(n, JoinSpec())
         ctx.count_nfa(n.stats(), ps)
         for v in viols:
@@ -166,8 +170,8 @@ def check_join(ctx, fx, cfg, RULE):
         bad = [(t["callee"], t["l"]) for _, t in cb.normal_calls() if (t.get("callee") or "").endswith(PANICKY) and not t.get("exp")]
         ctx.require(not bad, RULE, inst + ":no-panic", "panicking extractor on the join path: %s" % bad, fn=co["def"], site=co["loc"])
         # the slot locked is the captured one which holds the spawned handle
-        locks = [t for _, t in cb.normal_calls() if (t.get("callee") or "").startswith("async_lock::mutex::") and (t.get("callee") or "").endswith("::lock")]
-        ok = len(locks) == 1 and all(r.kind == "upvar" for r in roots(cb, locks[0]["args"][0]))
+        locks = [(g_, t) for g_ in loops.loop_family(fx, co) if g_["kind"] == "coroutine" for _, t in ctx.body(fx, g_).normal_calls() if (t.get("callee") or "").startswith("async_lock::mutex::") and (t.get("callee") or "").endswith("::lock")]
+        ok = len(locks) == 1 and all(r.kind == "upvar" for r in roots(ctx.body(fx, locks[0][0]), locks[0][1]["args"][0]))
         ctx.require(ok, RULE, inst + ":locks-own-slot", "the join locks something else than the slot holding its task handle", fn=co["def"], site=co["loc"])
         # the result handed back derives from the awaited handle (the actor value), flattened with ok()/and_then()
         rv = set()
